@@ -7,6 +7,28 @@ opad bytes, the PBKDF2 block length, and - for SHA-1 and MD5, whose rounds are w
 invocations - the per-round tuples (kind, index[, shift, T]) together with what each macro kind
 means (round constant / boolean function of the RNDk macros, message-index formula of the XXr
 macros).  Patterns do not mention the names of local variables.
+
+For C20 (wipe of the context by XXX_Final / HMAC_XXX_Final) the translator also regenerates
+  hash_structs    the field lists (element type, name, element count) of SHA256_CTX, SHA1_CTX,
+                  MD5_CTX and the three HMAC_XXX_CTX, from alg/sha256.h, alg/sha1.h, alg/md5.h;
+  hash_final_fns  for every function DEFINED in the three C files whose name contains "_Final" and
+                  that takes one of these contexts (the six public Final functions and the static
+                  *_Final_internal helpers): its context parameter (struct type, name, position)
+                  and the ordered statements of its body, each one READ (class FinalReader) or the
+                  module refuses (NotFound -> the pinned output is installed, the correspondence
+                  run decides):
+                    (0, f, [object per argument], [])   a call statement f(..);
+                    (2, "insecure_memzero", [object], size)   a wipe;
+                    (1, "", [], [])   `if (..) insecure_memzero(..);` - a wipe that may not run;
+                  object = (0, "") the context, (1, f) its field f (`&ctx->f`, `ctx->f`), (2, "") no
+                  part of it (an expression that does not mention the context parameter), after
+                  resolving parentheses, pointer casts and single-assignment temporaries; size =
+                  product of factors (0, "", n) integer literal, (1, T, 0) sizeof(T) - also for
+                  sizeof(*p) via p's declared pointee type, sizeof(local array) as sizeof(elem) * n,
+                  sizeof(ctx->f) - and (2, "", 0) sizeof(a pointer variable).  Declarations are
+                  recorded (they give the types above), a trailing `return;` is skipped; any other
+                  statement, size expression or use of the context is refused.
+What a size is worth and which fields a wipe covers is decided by value in coq/Alg/HashWipe.v.
 """
 from common import *
 
@@ -119,6 +141,10 @@ def hmac_consts(body, what):
 
 
 C_KEYWORDS = {"if", "else", "for", "while", "do", "switch", "return", "sizeof", "goto", "case"}
+# scalar types whose size the interpreter knows (coq/Alg/HashWipe.v wprim, LP64); keep in step
+PRIM_TYPES = {"char", "unsigned char", "uint8_t", "uint16_t", "uint32_t", "int", "unsigned int", "uint64_t", "size_t"}
+SIZE_CASTS = {"size_t", "unsigned long", "uint64_t"}     # casts that cannot truncate a size on LP64
+QUALS = {"const", "volatile", "restrict", "static", "register"}
 
 
 def func_def(src, name):
@@ -177,7 +203,7 @@ def statements(body):
             brace += 1
         elif ch == "}":
             brace -= 1
-            if brace == 0 and par == 0:
+            if brace == 0 and par == 0 and not re.search(r"=\s*\{[^{}]*\}$", cur):
                 out.append(cur.strip())
                 cur = ""
         elif ch == ";" and par == 0 and brace == 0:
@@ -188,22 +214,41 @@ def statements(body):
     return [st for st in out if st]
 
 
-def classify(st):
-    """(0, callee, [args]) for a pure call statement, None for a declaration, (1, "", [text]) otherwise."""
+def ctokens(text):
+    toks = re.findall(r"%s|0[xX][0-9a-fA-F]+|\d+|->|\+\+|--|[-+*/%%&|^~!<>=?:.,;()\[\]{}]" % ID, text)
+    if "".join(toks) != squeeze(text):
+        raise NotFound("text not tokenised: " + text.strip())
+    return toks
+
+
+def strip_parens(toks):
+    """Remove parentheses that enclose the whole token list."""
+    while len(toks) >= 2 and toks[0] == "(" and toks[-1] == ")":
+        depth, ok = 0, True
+        for k, t in enumerate(toks):
+            depth += {"(": 1, ")": -1}.get(t, 0)
+            if depth == 0 and k < len(toks) - 1:
+                ok = False
+                break
+        if not ok:
+            break
+        toks = toks[1:-1]
+    return toks
+
+
+def pure_call(st):
+    """(callee, [argument token lists]) if the statement is nothing but `f(a, b, ..)`, else None."""
     m = re.match(r"^(%s)\s*\(" % ID, st)
-    if m and m.group(1) not in C_KEYWORDS:
-        i, depth = m.end(), 1
-        while i < len(st) and depth:
-            depth += {"(": 1, ")": -1}.get(st[i], 0)
-            i += 1
-        if depth == 0 and i == len(st):
-            inner = st[m.end():i - 1]
-            args = [squeeze(a) for a in split_top(inner, ",")] if inner.strip() else []
-            return (0, m.group(1), args)
-    if re.fullmatch(r"(?:%s[\s\*]+)+%s\s*(?:\[[^\]]*\]\s*)*" % (ID, ID), st) and \
-            not (set(re.findall(ID, st)) & C_KEYWORDS):
+    if not m or m.group(1) in C_KEYWORDS:
         return None
-    return (1, "", [squeeze(st)])
+    i, depth = m.end(), 1
+    while i < len(st) and depth:
+        depth += {"(": 1, ")": -1}.get(st[i], 0)
+        i += 1
+    if depth != 0 or i != len(st):
+        return None
+    inner = st[m.end():i - 1]
+    return m.group(1), ([ctokens(a) for a in split_top(inner, ",")] if inner.strip() else [])
 
 
 def struct_fields(hdr, name):
@@ -224,7 +269,210 @@ def struct_fields(hdr, name):
     return fields
 
 
-def final_functions(src, struct_names, what):
+class FinalReader:
+    """Reads ONE *_Final* function: every statement is either understood (and its meaning for the
+    context object emitted) or the whole module refuses (NotFound)."""
+
+    def __init__(self, name, params, body, structs):
+        self.name, self.structs = name, dict(structs)
+        self.vars = {}          # identifier -> ("ptr", pointee type) | ("arr", elem type, n) | ("val", type)
+        self.temps = {}         # single-assignment temporary -> token list of its definition
+        self.body = body
+        self.ctx = None
+        plist = [" ".join(p.split()) for p in split_top(params, ",")]
+        for k, p in enumerate(plist):
+            d = self.declarator(p, param=True)
+            if d is None:
+                raise NotFound("%s: parameter not understood: %s" % (name, p))
+            ident, kind = d
+            self.vars[ident] = kind
+            if kind[0] == "ptr" and kind[1] in self.structs:
+                if self.ctx is not None:
+                    raise NotFound("%s: more than one context parameter" % name)
+                self.ctx = (kind[1], ident, k)
+        if self.ctx is None:
+            raise NotFound("%s: no context parameter in (%s)" % (name, params.strip()))
+
+    def bad(self, what, st):
+        return NotFound("%s: %s: %s" % (self.name, what, " ".join(st.split())))
+
+    def declarator(self, text, param=False):
+        """`T x`, `T * x`, `T x[n]` (qualifiers ignored) -> (x, kind); None if not a declarator."""
+        m = re.fullmatch(r"((?:%s\s+)+?)(\*\s*(?:(?:const|restrict)\s+)*)?(%s)\s*(\[[^\]]*\])?" % (ID, ID), text.strip())
+        if not m:
+            return None
+        words = [w for w in m.group(1).split() if w not in QUALS]
+        if not words or set(words) & C_KEYWORDS or m.group(3) in C_KEYWORDS:
+            return None
+        ty = " ".join(words)
+        if m.group(2):
+            if m.group(4):
+                return None
+            return m.group(3), ("ptr", ty)
+        if m.group(4):
+            if param:                       # an array parameter is a pointer
+                return m.group(3), ("ptr", ty)
+            n = m.group(4)[1:-1].strip()
+            if not re.fullmatch(NUM, n):
+                return None
+            return m.group(3), ("arr", ty, num(n))
+        return m.group(3), ("val", ty)
+
+    def assigned_elsewhere(self, ident, decl_st):
+        rest = self.body.replace(decl_st, " ", 1)
+        return bool(re.search(r"\b%s\s*(?:=(?!=)|[-+*/%%&|^]=|<<=|>>=|\+\+|--)" % re.escape(ident), rest) or
+                    re.search(r"(?:\+\+|--|&)\s*%s\b" % re.escape(ident), rest))
+
+    def subst(self, toks):
+        """Replace single-assignment temporaries by their definitions."""
+        for _ in range(8):
+            if not any(t in self.temps for t in toks):
+                return toks
+            out = []
+            for t in toks:
+                out += (["("] + self.temps[t] + [")"]) if t in self.temps else [t]
+            toks = out
+        raise NotFound("%s: temporaries defined in terms of each other" % self.name)
+
+    def strip_ptr_cast(self, toks):
+        """(T *)e -> e : a pointer cast does not change which object is denoted."""
+        toks = strip_parens(toks)
+        while toks and toks[0] == "(":
+            k = toks.index(")")
+            inner = [t for t in toks[1:k] if t not in QUALS]
+            if len(inner) >= 2 and inner[-1] == "*" and all(re.fullmatch(ID, t) for t in inner[:-1]) and k + 1 < len(toks):
+                toks = strip_parens(toks[k + 1:])
+            else:
+                break
+        return toks
+
+    def denotes(self, toks, st):
+        """(0, "") the context object; (1, f) its field f; (2, "") no part of the context object."""
+        cT, cp, _ = self.ctx
+        toks = self.strip_ptr_cast(self.subst(toks))
+        if toks == [cp]:
+            return (0, "")
+        fields = [f for _, f, _ in self.structs[cT]]
+        if toks[:2] == ["&", "("] and toks[-1:] == [")"]:
+            toks = ["&"] + strip_parens(toks[1:])
+        for form in (["&", cp, "->"], [cp, "->"]):
+            if toks[:len(form)] == form and len(toks) == len(form) + 1 and toks[-1] in fields:
+                return (1, toks[-1])
+        if cp not in toks:
+            return (2, "")
+        raise self.bad("argument mentions the context in a form that is not read (%s)" % "".join(toks), st)
+
+    def sizeof_type(self, ty, st):
+        if ty in self.structs or ty in PRIM_TYPES:
+            return [(1, ty, 0)]
+        raise self.bad("sizeof of a type that is not read (%s)" % ty, st)
+
+    def size_factors(self, toks, st):
+        """A size expression as a product of factors: (0, "", n) literal, (1, T, 0) sizeof(type T),
+        (2, "", 0) sizeof(a pointer)."""
+        toks = strip_parens(self.subst(toks))
+        # value-preserving casts of the whole expression
+        if toks and toks[0] == "(":
+            k = toks.index(")")
+            if " ".join(toks[1:k]) in SIZE_CASTS and k + 1 < len(toks):
+                return self.size_factors(toks[k + 1:], st)
+        # product at the top level
+        depth, parts, cur = 0, [], []
+        for t in toks:
+            if t in "([":
+                depth += 1
+            elif t in ")]":
+                depth -= 1
+            if t == "*" and depth == 0 and cur and cur[-1] not in ("(", "sizeof"):
+                parts.append(cur)
+                cur = []
+            else:
+                cur.append(t)
+        parts.append(cur)
+        if len(parts) > 1:
+            out = []
+            for p in parts:
+                out += self.size_factors(p, st)
+            return out
+        if len(toks) == 1 and re.fullmatch(NUM, toks[0]):
+            return [(0, "", num(toks[0]))]
+        if toks[:2] == ["sizeof", "("] and toks[-1] == ")" and strip_parens(toks[1:]) != toks[1:]:
+            arg = strip_parens(toks[1:])
+            cT, cp, _ = self.ctx
+            if arg and arg[0] == "*" and len(arg) == 2 and arg[1] in self.vars and self.vars[arg[1]][0] == "ptr":
+                return self.sizeof_type(self.vars[arg[1]][1], st)           # sizeof(*p): the pointee type
+            if len(arg) == 1 and arg[0] in self.vars:
+                k = self.vars[arg[0]]
+                if k[0] == "ptr":
+                    return [(2, "", 0)]                                      # sizeof(p): a pointer's size
+                if k[0] == "arr":
+                    return self.sizeof_type(k[1], st) + [(0, "", k[2])]     # sizeof(local array)
+                return self.sizeof_type(k[1], st)
+            if len(arg) == 3 and arg[0] == cp and arg[1] == "->":           # sizeof(ctx->f)
+                for t, f, n in self.structs[cT]:
+                    if f == arg[2]:
+                        return self.sizeof_type(t, st) + ([(0, "", n)] if n != 1 else [])
+            if arg and all(re.fullmatch(ID, t) for t in arg) and not (set(arg) & set(self.vars)):
+                return self.sizeof_type(" ".join(t for t in arg if t not in QUALS), st)
+        raise self.bad("size expression not read (%s)" % "".join(toks), st)
+
+    def read(self):
+        out = []
+        sts = statements(self.body)
+        for idx, st in enumerate(sts):
+            call = pure_call(st)
+            if call:
+                callee, args = call
+                if callee == "insecure_memzero":
+                    if len(args) != 2:
+                        raise self.bad("insecure_memzero without two arguments", st)
+                    obj = self.denotes(args[0], st)
+                    size = self.size_factors(args[1], st) if obj[0] != 2 else []
+                    out.append((2, callee, [obj], size, st))
+                else:
+                    out.append((0, callee, [self.denotes(a, st) for a in args], [], st))
+                continue
+            # declaration, possibly with an initialiser
+            lhs, eq, rhs = st.partition("=")
+            d = self.declarator(lhs) if (not eq or not rhs.startswith("=")) else None
+            if d is not None:
+                ident, kind = d
+                if ident in self.vars:
+                    raise self.bad("redeclaration", st)
+                self.vars[ident] = kind
+                if eq:
+                    if kind[0] == "arr":
+                        if not re.fullmatch(r"\{[\s0,]*\}", rhs.strip()):
+                            raise self.bad("array initialiser not read", st)
+                    else:
+                        if self.assigned_elsewhere(ident, st):
+                            raise self.bad("temporary assigned more than once", st)
+                        rt = ctokens(rhs)
+                        if any(t in ("++", "--", "=") for t in rt) or re.search(r"\b%s\s*\(" % ID, rhs.replace("sizeof", "")):
+                            raise self.bad("initialiser with side effects or a call", st)
+                        self.temps[ident] = rt
+                continue
+            # a guarded wipe: if (..) insecure_memzero(..); - it may or may not run
+            m = re.match(r"^if\s*\(", st)
+            if m:
+                i, depth = m.end(), 1
+                while i < len(st) and depth:
+                    depth += {"(": 1, ")": -1}.get(st[i], 0)
+                    i += 1
+                rest = st[i:].strip()
+                if rest.startswith("{") and rest.endswith("}"):
+                    rest = rest[1:-1]
+                inner = [x.strip() for x in statements(rest + (";" if not rest.rstrip().endswith((";", "}")) else ""))]
+                if inner and all((pure_call(x) or ("", []))[0] == "insecure_memzero" for x in inner):
+                    out.append((1, "", [], [], st))
+                    continue
+            if st == "return" and idx == len(sts) - 1:
+                continue
+            raise self.bad("statement not read", st)
+        return out
+
+
+def final_functions(src, structs, what):
     """Every function defined in `src` whose name contains _Final."""
     code = strip_comments(src)
     names = []
@@ -237,16 +485,11 @@ def final_functions(src, struct_names, what):
             params, body = func_def(src, n)
         except NotFound:
             continue
-        plist = [" ".join(p.split()) for p in split_top(params, ",")]
-        ctxs = []
-        for k, p in enumerate(plist):
-            pm = re.fullmatch(r"(%s)\s*\*\s*(?:restrict\s+)?(%s)" % (ID, ID), p)
-            if pm and pm.group(1) in struct_names:
-                ctxs.append((pm.group(1), pm.group(2), k))
-        if len(ctxs) != 1:
-            raise NotFound("%s: %s: exactly one context parameter expected in (%s)" % (what, n, params.strip()))
-        calls = [c for c in (classify(st) for st in statements(body)) if c is not None]
-        fns.append((n, ctxs[0], calls))
+        # only functions that take one of the hash contexts
+        if not any(re.search(r"\b%s\b" % re.escape(sn), params) for sn, _ in structs):
+            continue
+        rd = FinalReader(n, params, body, structs)
+        fns.append((n, rd.ctx, rd.read()))
     if not fns:
         raise NotFound(what + ": no *_Final* function definitions")
     return fns
@@ -258,8 +501,16 @@ def coq_s(t):
     return '"%s"' % t
 
 
+def coq_comment(t):
+    t = " ".join(t.split()).replace("(*", "( *").replace("*)", "* )")
+    return "" if '"' in t else " (* %s *)" % t
+
+
 def coq_wipe_data(structs, fns):
-    out = "\n(* C20: struct layouts and the statements of the *_Final* functions, in order *)\n"
+    out = "\n(* C20: struct layouts and the statements of the *_Final* functions, in order.\n"
+    out += "   statement = (kind, callee, arguments, size): kind 0 a call, 1 a guarded wipe (may not run),\n"
+    out += "   2 insecure_memzero(object, size); argument / object = (0, _) the context object, (1, f) its field f,\n"
+    out += "   (2, _) no part of it; size = product of factors (0, _, n) literal n, (1, T, _) sizeof(T), (2, _, _) sizeof(pointer) *)\n"
     out += "Local Open Scope string_scope.\n"
     rows = []
     for name, fields in structs:
@@ -268,10 +519,14 @@ def coq_wipe_data(structs, fns):
     out += "Definition hash_structs : list (string * list (string * string * N)) :=\n  [%s].\n" % ";\n   ".join(rows)
     rows = []
     for name, (ct, cp, ci), calls in fns:
-        cl = ";\n      ".join("(%d%%N, %s, [%s])" % (k, coq_s(f), "; ".join(coq_s(a) for a in args)) for k, f, args in calls)
-        rows.append("(%s, (%s, %s, %d%%N),\n     [%s])" % (coq_s(name), coq_s(ct), coq_s(cp), ci, cl))
-    out += ("Definition hash_final_fns : list (string * (string * string * N) * list (N * string * list string)) :=\n  [%s].\n"
-            % ";\n   ".join(rows))
+        items = []
+        for j, (k, f, args, size, text) in enumerate(calls):
+            al = "; ".join("(%d%%N, %s)" % (a, coq_s(fl)) for a, fl in args)
+            sl = "; ".join("(%d%%N, %s, %d%%N)" % (a, coq_s(t), n) for a, t, n in size)
+            items.append("(%d%%N, %s, [%s], [%s])%s%s" % (k, coq_s(f), al, sl, ";" if j < len(calls) - 1 else "", coq_comment(text)))
+        rows.append("(%s, (%s, %s, %d%%N),\n     [%s])" % (coq_s(name), coq_s(ct), coq_s(cp), ci, "\n      ".join(items)))
+    out += ("Definition hash_final_fns : list (string * (string * string * N) *\n"
+            "    list (N * string * list (N * string) * list (N * string * N))) :=\n  [%s].\n" % ";\n   ".join(rows))
     return out
 
 
@@ -439,7 +694,7 @@ def extract(repo):
             structs.append((nm, struct_fields(hdr, nm)))
     snames = [nm for nm, _ in structs]
     for stem in ("sha256", "sha1", "md5"):
-        fns += final_functions(read(repo, "alg/%s.c" % stem), snames, "alg/%s.c" % stem)
+        fns += final_functions(read(repo, "alg/%s.c" % stem), structs, "alg/%s.c" % stem)
     got = [n for n, _, _ in fns]
     for need in ("SHA256_Final", "HMAC_SHA256_Final", "SHA1_Final", "HMAC_SHA1_Final", "MD5_Final", "HMAC_MD5_Final"):
         if need not in got:
